@@ -67,6 +67,11 @@ MStep(m, e, idx) ==
     [] e.e = "FinalProbe" ->
         [m EXCEPT !.bad = IF ~e.ok THEN Flag(@, "C12", "C12_Residue", idx)
                           ELSE IF e.fds # 0 THEN Flag(@, "C12", "C12_NoLeak_fd", idx) ELSE @]
+    \* ... and before anything is probed: no object still claims the lock, holds its in-process lock or a descriptor
+    [] e.e = "FinalState" ->
+        [m EXCEPT !.bad = IF \E i \in DOMAIN e.locked : e.locked[i] THEN Flag(@, "C12", "C12_IsLocked", idx)
+                          ELSE IF \E i \in DOMAIN e.tl : e.tl[i] # "none" THEN Flag(@, "C12", "C12_InProcessLock", idx)
+                          ELSE IF e.fds # 0 THEN Flag(@, "C12", "C12_NoLeak_fd", idx) ELSE @]
     [] e.e = "SpuriousRelRaised" -> [m EXCEPT !.bad = Flag(@, "C12", "C12_UnheldReleaseNoop", idx)]
     [] e.e = "End" ->
         IF e.status # "ok" THEN [m EXCEPT !.bad = Flag(Flag(@, "C02", "C02_Hang", idx), "C12", "C12_Hang", idx)]
